@@ -45,9 +45,11 @@ class Call:
 
 
 class Child:
-    """What the stand-in child process does: (stdout text, stderr text, exit code) or raise."""
+    """What the stand-in child process does: (stdout text, stderr text, exit code) or raise.
+    `out` / `err` may also be `bytes`: a child writes BYTES to its descriptors - nothing obliges them to be the
+    encoding of a text (they are then written as they are)."""
 
-    def __init__(self, out: str = '', err: str = '', code: int = 0, raises: Optional[Exception] = None,
+    def __init__(self, out='', err='', code: int = 0, raises: Optional[Exception] = None,
                  read_file_arg: Optional[int] = None):
         self.out, self.err, self.code, self.raises = out, err, code, raises
         self.read_file_arg = read_file_arg  # index of an argv element that is a file to be read (source interpreter)
@@ -60,15 +62,16 @@ def _fileno(f):
         return None
 
 
-def _write_through_descriptor(f, text: str):
+def _write_through_descriptor(f, text):
     """A child process writes to the DESCRIPTOR it inherits, at the current offset of the open file
     description - it knows nothing of what the parent's file OBJECT still holds in its buffer.
-    (Objects without a descriptor - in-memory files - are written at Python level.)"""
+    (Objects without a descriptor - in-memory files - are written at Python level.)
+    `text`: str (encoded with the encoding of the file) or bytes (written as they are)."""
     fd = _fileno(f)
     if fd is None:
-        f.write(text)
+        f.write(text if isinstance(text, str) else text.decode('utf-8', 'surrogateescape'))
         return
-    data = text.encode(getattr(f, 'encoding', None) or 'utf-8')
+    data = text if isinstance(text, bytes) else text.encode(getattr(f, 'encoding', None) or 'utf-8')
     while data:
         n = os.write(fd, data)
         data = data[n:]
